@@ -192,6 +192,8 @@ def gen_case_c03(rng):
     if len(longk) >= 2 and rng.random() < 0.25:
         keys = [k for k in keys if k not in longk] + longk[:2]
     if b['kind'] == 'dir' and not is_source(b) and rng.random() < 0.04:
+        keys.append(rng.choice(['data/x.csv', '/abs/path', "('a/b',)"]))     # path-like keys (recorded finding)
+    if b['kind'] == 'dir' and not is_source(b) and rng.random() < 0.04:
         keys.append('L' * 300)     # entry directory name beyond the 255-byte limit (recorded finding)
     u = Uniq()
     ops = []
@@ -274,6 +276,15 @@ class Run03(object):
                     return False
             if any(_long(k) for k in (keys or self.keys_used)):
                 mech = mech + ['dir-entry-name-too-long']
+            def _sep(k):
+                try:
+                    return os.sep in dir_fname(k)
+                except Exception:
+                    return False
+            if any(_sep(k) for k in self.keys_used):
+                # (a key whose entry name contains the path separator is stored as nested directories: the listing
+                # shows the first path component instead - any operation that lists the archive is affected)
+                mech = mech + ['dir-key-with-path-separator']
         self.viol.append({'property': 'C03', 'kind': kind, 'msg': msg[:600], 'mech': mech,
                           'step': self.step, 'case': self.case})
 
@@ -359,8 +370,13 @@ class Run03(object):
                              'this handle / a dict %s' % (o, sorted(map(repr, seen))[:6], sorted(map(repr, self.model))[:6]),
                              [x for x in set(seen) ^ set(self.model)])
             if self.cached and i % 7 == 6:
-                a.sync(clear=True)
-                back = dict(a.archive.items())
+                try:
+                    a.sync(clear=True)
+                    back = dict(a.archive.items())
+                except Exception as e:
+                    self.bad('archive-unreadable', 'after %s: sync / reading the archive behind the cache raised %s: %s'
+                             % (o, type(e).__name__, str(e)[:160]), [k] if k is not None else ())
+                    break
                 self.note('c03_cached_sync_checks')
                 if self.b['kind'] != 'null' and not same_dict(back, self.model):
                     self.bad('cached-archive-differs-after-sync', 'archive behind the cache holds %s, cache %s'
@@ -914,7 +930,8 @@ def run_shard(prop, tier, seed, shard, nshards, opts):
         # directed witnesses of the recorded findings (same judge): they keep the KNOWN-FINDING lines on every
         # run and simply pass once a defect is repaired
         dirb = {'kind': 'dir', 'serialized': True, 'protocol': None}
-        for ops in ([['set', 'L' * 300, 1], ['get', 'L' * 300], ['set', 'short', 2], ['len']],
+        for ops in ([['set', 'data/x.csv', 1], ['get', 'data/x.csv'], ['keys', 'data/x.csv'], ['len']],
+                    [['set', 'L' * 300, 1], ['get', 'L' * 300], ['set', 'short', 2], ['len']],
                     [['set', 'a-b', 1], ['set', 'a_b', 2], ['get', 'a-b'], ['len']]):
             case = {'backend': dirb, 'cached': False, 'ops': ops, 'seed': 1, 'directed': True}
             r, viol = run_case(case, prop)
